@@ -105,6 +105,10 @@ pub enum Storage {
     HeapSpare,
     HeapSharedEqual,
     HeapSharedShorter,
+    /// unique heap buffer with the given (much larger) capacity
+    HeapBig(usize),
+    /// a long shared text of the given length, this handle truncated to the short text
+    HeapSharedMuchShorter(usize),
 }
 pub const STORAGES: [Storage; 7] = [Storage::Inline, Storage::Static, Storage::StaticTruncated, Storage::HeapExact, Storage::HeapSpare, Storage::HeapSharedEqual, Storage::HeapSharedShorter];
 
@@ -154,6 +158,27 @@ pub fn build(text: &str, st: Storage) -> Option<Built> {
             let sib = s.clone();
             mk(s, vec![sib], None)
         }
+        Storage::HeapBig(cap) => {
+            if cap <= text.len() + INLINE {
+                return None;
+            }
+            let mut s = LeanString::with_capacity(cap);
+            s.push_str(text);
+            mk(s, vec![], None)
+        }
+        Storage::HeapSharedMuchShorter(total) => {
+            if total <= text.len() + INLINE {
+                return None;
+            }
+            let mut long = LeanString::with_capacity(total);
+            long.push_str(text);
+            while long.len() + 8 <= total {
+                long.push_str("tailtail");
+            }
+            let mut s = long.clone();
+            s.truncate(text.len());
+            mk(s, vec![long], None)
+        }
         Storage::HeapSharedShorter => {
             let mut long = LeanString::with_capacity(text.len() + INLINE + 4);
             long.push_str(text);
@@ -172,10 +197,21 @@ pub fn c08_sweep(cx: &SweepCtx, quick: bool, threads: usize) {
         lens.extend([65536, 1 << 20]);
     }
     let counts: Vec<usize> = if quick { vec![1, 2, 3, 8, 64] } else { (1..=64).collect() };
+    // besides the seven basic storage states: capacities far above the length (a clone must
+    // share the buffer however empty it is) and handles much shorter than the shared text
+    let mut storages: Vec<Storage> = STORAGES.to_vec();
+    for big in [1usize << 10, 5000, 1 << 13, 1 << 16, 1 << 20, 3 << 20] {
+        if quick && big > (1 << 16) {
+            continue;
+        }
+        storages.push(Storage::HeapBig(big));
+        storages.push(Storage::HeapSharedMuchShorter(big));
+    }
+    let storages = &storages;
     par_for(lens.len(), threads, |li| {
         let len = lens[li];
         let text = long_text(len);
-        for st in STORAGES {
+        for &st in storages {
             for method in 0..5u8 {
                 for &n in &counts {
                     for order in 0..3u8 {
